@@ -29,6 +29,14 @@ def section(sel, otype, op, other_op):
         return {}
     if sel == 2:
         return {otype: {other_op: P.ALLOW_ALL}}
+    if other_op == "COMPLEMENT":
+        # every *other* operation carries the opposite decision, so a handler that consults the wrong
+        # operation's entry is told the opposite of what the right entry says
+        perm = {3: P.ALLOW_ALL, 4: P.ALLOW_OWNER, 5: P.DISALLOW_ALL}[sel]
+        opposite = P.DISALLOW_ALL if sel in (3, 4) else P.ALLOW_ALL
+        entry = {o: opposite for o in OP}
+        entry[op] = perm
+        return {otype: entry}
     return {otype: {op: {3: P.ALLOW_ALL, 4: P.ALLOW_OWNER, 5: P.DISALLOW_ALL}[sel]}}
 
 
@@ -243,6 +251,64 @@ def listing(ugroup_idx):
     return h
 
 
+def listing_same(ugroup_idx):
+    """Three objects of one type under one policy, owners symbolic: each is listed on its own merits
+    (a decision reused across objects that differ only in owner would show)."""
+    ug = UGROUPS[ugroup_idx]
+
+    def h(sel: int, user: str, o1: str, o2: str, o3: str) -> bool:
+        """
+        post: _
+        """
+        if not (0 <= sel < SEL) or len(user) > 1 or len(o1) > 1 or len(o2) > 1 or len(o3) > 1:
+            return True
+        owners = [o1, o2, o3]
+        objs = [mk_obj("SymmetricKey", uid=i + 1, owner=owners[i], policy="p") for i in range(3)]
+        b = build_bundle(True, sel, sel, 0, False, objs[0].object_type, OP.LOCATE, OP.QUERY)
+        pol = stubs.default_policies()
+        pol["p"] = b
+        e, s = mk_engine(objs, policies=pol, identity=(user, ug))
+        got = e._list_objects_with_access_controls(OP.LOCATE)
+        reach()
+        want = [o.unique_identifier for i, o in enumerate(objs)
+                if ref_allowed(b, user, ug, owners[i], o.object_type, OP.LOCATE)]
+        return [x.unique_identifier for x in got] == want
+    return h
+
+
+def creator_owner(creator):
+    """Whoever creates an object owns it - also when the material it is derived from belongs to
+    somebody else; nobody's ownership changes."""
+    from kv import payloads as PL
+
+    def h(user: str, base_owner: str) -> bool:
+        """
+        post: _
+        """
+        if len(user) > 1 or len(base_owner) > 1:
+            return True
+        M = enums.CryptographicUsageMask
+        base = mk_obj("SymmetricKey", uid=1, owner=base_owner, policy="open", state=enums.State.ACTIVE,
+                      masks=[M.DERIVE_KEY])
+        pol = stubs.default_policies()
+        pol["open"] = {"preset": {base.object_type: {o: P.ALLOW_ALL for o in OP}}}
+        e, s = mk_engine([base], policies=pol, identity=(user, None), crypto=PL.RecordingCrypto())
+        with stubs.NoTracing():
+            payload = PL.mk(creator, "1")
+        resp = e._process_operation(getattr(OP, creator), payload)
+        reach()
+        if base._owner != base_owner:
+            return False
+        new = [o for o in s.objs if o is not base]
+        if len(new) != (2 if creator == "CREATE_KEY_PAIR" else 1):
+            return False
+        for o in new:
+            if o._owner != user:
+                return False
+        return True
+    return h
+
+
 def _idx(enum_cls, member):
     return list(enum_cls).index(member)
 
@@ -250,6 +316,14 @@ def _idx(enum_cls, member):
 def conditions(tier):
     thorough = tier == "thorough"
     out = []
+    for gi in ((0, 2) if not thorough else range(len(UGROUPS))):
+        out.append(Cond("listing-same-type-ugroups%d" % gi, "listing_same", dict(ugroup_idx=gi),
+                        bounds="three symmetric keys under one policy (6 section shapes), requester and the three owners "
+                               "symbolic strings len<=1, requester groups %r" % (UGROUPS[gi],), timeout=600, part="listing"))
+    for c in ("CREATE", "REGISTER", "CREATE_KEY_PAIR", "DERIVE_KEY"):
+        out.append(Cond("creator-owner-%s" % c, "creator_owner", dict(creator=c),
+                        bounds="%s by a requester (symbolic string len<=1) while the store holds a key owned by someone "
+                               "else (symbolic) that everybody may read and derive from" % c, timeout=300, part="ownership"))
     pairs = [(OT.SYMMETRIC_KEY, OP.GET)]
     if thorough:
         pairs += [(OT.CERTIFICATE, OP.DESTROY), (OT.OPAQUE_DATA, OP.LOCATE), (OT.SECRET_DATA, OP.QUERY)]
